@@ -145,6 +145,18 @@ CLAIMS = {
         "is not repaired here, printed as KNOWN-FINDING. A repair that consults the log is decided by the same check (the cursor already serves that table); a partial "
         "repair (same version only) shows as a new violation (signature ...:older). Outside: convergence of deletion records across peers, edges, the pull protocol.",
    design='DESIGN.md §3 C11'),
+ 'C17': dict(
+   level='model_checking',
+   text="Index maintenance of synchronised rows only. The path of a row received from a peer - GraphDatabase::add_nodes, the AddNodes arm of process_message, "
+        "NodeToInsert::write, Node::write - is executed from MIR (coroutines run through their awaits), the last step on a connection that records every SQL "
+        "statement with its parameters; extract_json is an uninterpreted function of the JSON text. For a new row and for a row replacing a stored version, with the "
+        "entity's indexing flag symbolic, z3 decides: indexing enabled => an INSERT into _node_fts carries the row's storage slot and the text of its JSON (and the "
+        "'delete' command carries the previous text when a version is replaced); indexing disabled => no statement touches _node_fts. Counterexamples and samples "
+        "are replayed on two real database instances (room export / import, filter_existing_node, add_nodes, then search queries).",
+   note="On the unchanged tree the obligation FAILS for every row of an indexed entity (synchronised rows are never indexed): recorded in KNOWN_FINDINGS.json with "
+        "the reason it is not repaired here, printed as KNOWN-FINDING; a candidate repair is decided by the same check (notes/c17_candidate_repair.diff). Outside: that "
+        "FTS5 answers MATCH exactly for the recorded texts, local writes, deletions, reuse of storage slots, the trigram tokenizer.",
+   design='DESIGN.md §3 C17'),
  'C18': dict(
    level='model_checking',
    text="Room-definition kernel, last step only. The RoomNodeWrite arm of AuthorisationService::process_message (what runs when the writer reports on a synchronised room "
@@ -212,7 +224,6 @@ NA = {
  'C05': "the meaning of generated SQL is SQLite's; no implementation-side evaluator to encode",
  'C13': "crash points / WAL durability / rollback are SQLite behaviour behind FFI; rusqlite::Connection cannot be made symbolic",
  'C16': "a schedule property of reader pool + actor + writer threads over SQLite; Kani/mirsym do not handle concurrency",
- 'C17': "the index is SQLite FTS5; extract_json alone says nothing about matches",
 }
 PENDING = "driver not finished yet (DESIGN.md §6 build order); not claimed until it runs end to end"
 
